@@ -1334,6 +1334,12 @@ func runC10mk(ctx *Ctx) *Result {
 	if res.Broken != "" {
 		return res
 	}
+	if os.Getenv("VERIF_C10MK_LAYERS") == "ml" { // development aid for mutation trials: only the multi-line layer (no floors, evidence says so)
+		c10mlRun(ctx, res, rng.Fork(), &c10mkGen{rng: rng.Fork(), kinds: map[string]int{}}, j.limit)
+		res.Count("only_layer_ml_requested_by_environment", 1)
+		res.Rule = "DEVELOPMENT RUN, multi-line layer only: " + res.Rule
+		return res
+	}
 
 	// corpus: inputs that once mattered
 	corpus := []string{"A.\\#=v", " \t#x", "$\\#=v", "${a:C\\x\\#\\g\\}=v", "${A:S,a,b}=v # ,}", "A.\\#\\#b${c}\\# =v", "X= ${VAR:!echo $$x!}", "${A:!$", "${A:!a$$!}", "${A:x${A:x${A:x${A:x}}}}", "a$", "$", "$$", "${", "$(", "${}", "${:}", "${A:S}",
